@@ -452,6 +452,30 @@ def a_biprop(rng):
     return (v, rng.randint(3, 8)), {}
 
 
+def _biprop_seat_map(rng):
+    """seats per district as a dictionary the caller owns; a small district may be left out (it is due no seat)"""
+    n = rng.randint(2, 4)
+    t = rng.choice([None, None, 0, 1])
+    m = {'N': n, 'S': 6 - n - (t or 0)}          # six seats in all
+    if t is not None:
+        m['T'] = t
+    return m
+
+
+def a_biprop_dict(rng):
+    cands = g_cands(rng, 2, 3)
+    v = {k: {c: rng.randint(20, 300) for c in cands} for k in ['N', 'S']}
+    v['T'] = {c: rng.randint(1, 9) for c in cands}
+    return (v, _biprop_seat_map(rng)), {}
+
+
+def a_biprop_total(rng):
+    cands = g_cands(rng, 2, 3)
+    v = {k: {c: rng.randint(20, 300) for c in cands} for k in ['N', 'S']}
+    v['T'] = {c: rng.randint(1, 9) for c in cands}
+    return (v, 6), {}
+
+
 # ---------------------------------------------------------------- recipes
 class Stub:
     """a stage / inner evaluator with a fixed answer (fresh copy per call)"""
@@ -615,6 +639,9 @@ def recipes():
     add(prop.PureProportionality, 'default', lambda r: prop.PureProportionality(), 'evaluate', a_dist_simple)
     add(prop.VotesPerSeat, 'cfg', lambda r: prop.VotesPerSeat(r.choice([3, 10, 25])), 'evaluate', a_dist_simple_noseats)
     add(prop.BiproportionalEvaluator, 'default', lambda r: prop.BiproportionalEvaluator(r.choice(['d_hondt', 'sainte_lague'])), 'evaluate', a_biprop)
+    add(prop.BiproportionalEvaluator, 'seat-dict', lambda r: prop.BiproportionalEvaluator(r.choice(['d_hondt', 'sainte_lague'])), 'evaluate', a_biprop_dict)
+    add(prop.BiproportionalEvaluator, 'apportioner-dict',
+        lambda r: _given(lambda m: prop.BiproportionalEvaluator(r.choice(['d_hondt', 'sainte_lague']), apportioner=m), _biprop_seat_map(r)), 'evaluate', a_biprop_total)
     add(seq.TransferableVoteDistributor, 'gregory', lambda r: seq.TransferableVoteDistributor(quota_function=r.choice(['droop', 'hare'])), 'evaluate', a_dist_ranked)
     add(seq.TransferableVoteDistributor, 'hare-seeded', lambda r: seq.TransferableVoteDistributor(transferer=tr.Hare(seed=r.randint(0, 3)), quota_function='droop'), 'evaluate', a_dist_ranked)
     add(seq.TransferableVoteDistributor, 'default-transferer', lambda r: seq.TransferableVoteDistributor(), 'evaluate', a_dist_ranked)
